@@ -48,6 +48,35 @@ impl<R> ReaderCursor<R> {
     }
 }
 
+#[cfg(grenad_verif)]
+impl<R> ReaderCursor<R> {
+    /// Verification hook: a read-only description of the cursor's internal state.
+    ///
+    /// For every loaded index level: the recorded offset, a hash of the loaded block and
+    /// the in-block position; then the same (with offset `0`) for the data block.
+    /// Absent parts are reported as a single `u64::MAX`.
+    pub fn verif_fingerprint(&self) -> Vec<u64> {
+        let mut out = Vec::new();
+        match &self.index_block_cursor.inner {
+            Some(inner) => {
+                for (offset, cursor) in inner {
+                    let (hash, pos) = cursor.verif_fingerprint();
+                    out.extend_from_slice(&[*offset, hash, pos]);
+                }
+            }
+            None => out.push(u64::MAX),
+        }
+        match &self.current_cursor {
+            Some(cursor) => {
+                let (hash, pos) = cursor.verif_fingerprint();
+                out.extend_from_slice(&[0, hash, pos]);
+            }
+            None => out.push(u64::MAX),
+        }
+        out
+    }
+}
+
 impl<R: io::Read + io::Seek> ReaderCursor<R> {
     /// Creates a new [`ReaderCursor`] by consumming a [`Reader`].
     pub(crate) fn new(reader: Reader<R>) -> Result<ReaderCursor<R>, Error> {
